@@ -38,6 +38,7 @@ type verifC08Env struct {
 	trace  []string
 
 	nonTrivial bool
+	recreated  bool
 }
 
 // verifC08Array is a backing array of the caller; [usedFrom, usedTo) holds the key and/or value bytes.
@@ -260,7 +261,11 @@ func (e *verifC08Env) opSave() {
 
 func (e *verifC08Env) reload(phase string) {
 	acc, err := e.f.Adb.LoadAccount(e.addr)
-	e.fixture(err, "LoadAccount")
+	if err != nil {
+		// the account was saved (and possibly committed) without error: not being able to load it again means that
+		// nothing of what was written can be read back
+		e.c.Violation("C08:readback:"+phase+":account-unloadable", "LoadAccount fails (%s): %v [%s]", phase, err, e.traceText())
+	}
 	e.acc = acc.(state.UserAccountHandler)
 	e.phase = phase
 	e.checkLeaves()
@@ -275,6 +280,45 @@ func (e *verifC08Env) opCommit() {
 	_, err := e.f.Adb.Commit()
 	e.fixture(err, "Commit")
 	e.reload("after-commit")
+}
+
+// opRecreate: the account is removed and an account is created again at the same address (a contract that is
+// destroyed and deployed again between two commits). Nothing of the old storage may be read through the new
+// account, and everything written to the new account must be read back like for any other account. No journal
+// revert crosses the removal (that is the subject of C06). RemoveAccount refuses accounts whose data trie has
+// uncommitted changes ("hash not found") or that were never saved: then the caller reverts to the journal length
+// taken just before, as scProcessor does, and goes on with the account as it was.
+func (e *verifC08Env) opRecreate() {
+	if e.dirty {
+		e.opSave()
+	}
+	how := rapid.SampledFrom([]string{"trie cached (commit, reload)", "trie not cached (commit)", "no commit"}).Draw(e.rt, "recreateHow")
+	if how != "no commit" {
+		_, err := e.f.Adb.Commit()
+		e.fixture(err, "Commit")
+		if how == "trie cached (commit, reload)" {
+			e.reload("after-commit")
+		}
+	}
+	jl := e.f.Adb.JournalLen()
+	err := e.f.Adb.RemoveAccount(e.addr)
+	if err != nil {
+		e.logf("remove rejected (%s)", how)
+		e.c.Class("remove-rejected")
+		e.fixture(e.f.Adb.RevertToSnapshot(jl), "RevertToSnapshot")
+		e.reload("after-reload")
+		return
+	}
+	e.logf("remove+recreate (%s)", how)
+	e.c.Class("recreate: " + how)
+	e.model = map[string][]byte{}
+	e.hazard = map[string]bool{}
+	acc, err := e.f.Adb.LoadAccount(e.addr)
+	e.fixture(err, "LoadAccount")
+	e.acc = acc.(state.UserAccountHandler)
+	e.phase = "after-recreate"
+	e.recreated = true
+	e.readAll()
 }
 
 func (e *verifC08Env) opReload() {
@@ -315,7 +359,7 @@ func verifC08Program(rt *rapid.T, c *kit.Case) {
 
 	steps := rapid.IntRange(1, 25).Draw(rt, "steps")
 	for s := 0; s < steps; s++ {
-		switch op := rapid.IntRange(0, 18).Draw(rt, "op"); {
+		switch op := rapid.IntRange(0, 20).Draw(rt, "op"); {
 		case op < 10:
 			e.opWrite()
 		case op < 14:
@@ -324,14 +368,20 @@ func verifC08Program(rt *rapid.T, c *kit.Case) {
 			e.opSave()
 		case op < 18:
 			e.opCommit()
-		default:
+		case op < 19:
 			e.opReload()
+		default:
+			e.opRecreate()
 		}
 	}
-	// every program ends with the full chain: read, save, read, commit, reload, read
+	// every program ends with the full chain: read, save, read, reload, read, commit, reload, read
 	e.readAll()
 	e.opSave()
+	e.opReload()
 	e.opCommit()
+	if e.recreated {
+		c.Class("program-with-recreate")
+	}
 	if e.nonTrivial {
 		c.NonTrivial(e.traceText())
 		c.Sample("%s", e.traceText())
